@@ -239,6 +239,7 @@ def trace_part(chk, n_seg, n_file):
         last = counter[0] % 7 == 3 and bool(b)
         blob, lay = fcsgen.build(version=version, pairs=req + a, data=b'\x07', delim=dl, supp_pairs=b or None,
                                  stext_first=(counter[0] % 5 == 0 and not last), stext_last=last,
+                                 empty_stext=(not b and counter[0] % 3 == 1),
                                  analysis_pairs=c or None, analysis_in=analysis_in, supp_lead=supp_lead,
                                  pad_text=pad, pad_tail=2 if last else 0, raw_analysis=araw, analysis_lead=an_lead, offset_style=ostyle)
         announced = lay['se'] - lay['sb'] + 1 if lay['sb'] else 0
